@@ -23,7 +23,7 @@ func Materialise(root string, t model.Tree) error {
 	for i := range tt {
 		e := &tt[i]
 		p := filepath.Join(root, filepath.FromSlash(e.Path))
-		if e.Group != 0 && e.Type != "dir" && e.Type != "symlink" {
+		if e.Group != 0 && e.Type != "dir" {
 			// later members of an inode group (regular files, fifos, device nodes) are links to the first
 			if first, ok := groups[e.Group]; ok {
 				if err := os.Link(first, p); err != nil {
